@@ -48,6 +48,10 @@ class Ctx:
         self.notes = []
         self.drift = []
         self.findings = load_findings().get(pid, [])
+        rd = VERIF / "replay" / pid
+        if rd.exists():
+            for f in rd.glob("*.json"):
+                f.unlink()
 
     @property
     def quick(self):
